@@ -231,11 +231,15 @@ func (s *sut) funcs() interceptor.Funcs {
 			}
 			switch o := obj.(type) {
 			case *v1.NodeClaim:
+				e := "EDelClaim"
+				if o.Name == twinName {
+					e = "EDelTwin"
+				}
 				if k := s.inject("SDelClaim"); k != "" {
-					s.eff("EDelClaim false")
+					s.eff(e + " false")
 					return apiErr(k, "nodeclaims", o.Name)
 				}
-				s.eff("EDelClaim true")
+				s.eff(e + " true")
 			case *corev1.Node:
 				i := nodeID(o.Name)
 				if k := s.injectDelNode(i); k != "" {
@@ -260,16 +264,21 @@ func (s *sut) funcs() interceptor.Funcs {
 						s.eff("ETaint " + gz(i) + " false")
 						return apiErr(k, "nodes", o.Name)
 					}
-					s.eff("ETaint " + gz(i) + " true")
-					return c.Patch(ctx, obj, patch, opts...)
+					err := c.Patch(ctx, obj, patch, opts...)
+					s.eff("ETaint " + gz(i) + " " + gb(err == nil))
+					return err
 				}
 				if k := s.inject("SRmNodeFin"); k != "" {
 					s.eff("ERmNodeFin " + gz(i) + " false")
 					return apiErr(k, "nodes", o.Name)
 				}
-				s.eff("ERmNodeFin " + gz(i) + " true")
-				s.instants = append(s.instants, instantObs{"TNode " + gz(i), s.readBack()})
-				return c.Patch(ctx, obj, patch, opts...)
+				snap := s.readBack()
+				err := c.Patch(ctx, obj, patch, opts...)
+				s.eff("ERmNodeFin " + gz(i) + " " + gb(err == nil))
+				if err == nil {
+					s.instants = append(s.instants, instantObs{"TNode " + gz(i), snap})
+				}
+				return err
 			case *v1.NodeClaim:
 				s.ncPatch++
 				switch {
@@ -278,15 +287,22 @@ func (s *sut) funcs() interceptor.Funcs {
 						s.eff("ERmClaimFin false")
 						return apiErr(k, "nodeclaims", o.Name)
 					}
-					s.eff("ERmClaimFin true")
-					s.instants = append(s.instants, instantObs{"TClaim", s.readBack()})
+					snap := s.readBack()
+					err := c.Patch(ctx, obj, patch, opts...)
+					s.eff("ERmClaimFin " + gb(err == nil))
+					if err == nil {
+						s.instants = append(s.instants, instantObs{"TClaim", snap})
+					}
+					return err
 				case s.cur == "claim-fin":
 					_, t := annotOf(o)
 					if k := s.inject("SAnnot"); k != "" {
 						s.eff("EAnnot false " + gz(t))
 						return apiErr(k, "nodeclaims", o.Name)
 					}
-					s.eff("EAnnot true " + gz(t))
+					err := c.Patch(ctx, obj, patch, opts...)
+					s.eff("EAnnot " + gb(err == nil) + " " + gz(t))
+					return err
 				case s.cur == "claim-launch" && s.ncPatch == 1 && !s.w.Claim.Fin:
 					if k := s.inject("SAddFin"); k != "" {
 						s.eff("EAddFin false")
@@ -335,12 +351,16 @@ func (s *sut) funcs() interceptor.Funcs {
 			}
 			d, since, vol, term := condsOf(o)
 			e := fmt.Sprintf("%s %s %s", gDrained(d, since), gVol(vol), gb(term))
+			st := "EStatus "
+			if o.Name == twinName {
+				st = "EStatusTwin "
+			}
 			if k := s.inject("SPatchStatus"); k != "" {
-				s.eff("EStatus false " + e)
+				s.eff(st + "false " + e)
 				return apiErr(k, "nodeclaims", o.Name)
 			}
 			err := c.SubResource(sub).Patch(ctx, obj, patch, opts...)
-			s.eff("EStatus " + gb(err == nil) + " " + e)
+			s.eff(st + gb(err == nil) + " " + e)
 			return err
 		},
 		Create: func(ctx context.Context, _ client.WithWatch, obj client.Object, _ ...client.CreateOption) error {
@@ -391,15 +411,18 @@ func (s *sut) readBack() *world {
 		nodes = append(nodes, n)
 	}
 	o.Nodes = nodes
-	if o.Claim != nil {
+	readClaim := func(name string, slot **wClaim) {
+		if *slot == nil {
+			return
+		}
 		var obj v1.NodeClaim
-		if err := s.sw.Get(ctx, client.ObjectKey{Name: claimName}, &obj); err != nil {
+		if err := s.sw.Get(ctx, client.ObjectKey{Name: name}, &obj); err != nil {
 			if !apierrors.IsNotFound(err) {
 				panic(err)
 			}
-			o.Claim = nil
+			*slot = nil
 		} else {
-			c := o.Claim
+			c := *slot
 			c.Fin = hasFin(&obj, v1.TerminationFinalizer)
 			if obj.DeletionTimestamp == nil {
 				c.Del = nil
@@ -415,6 +438,8 @@ func (s *sut) readBack() *world {
 			c.Drained, c.Since, c.Vol, c.Term = condsOf(&obj)
 		}
 	}
+	readClaim(claimName, &o.Claim)
+	readClaim(twinName, &o.Twin)
 	var pl corev1.PodList
 	if err := s.sw.List(ctx, &pl); err != nil {
 		panic(err)
@@ -453,8 +478,11 @@ type outcome struct {
 	fired    bool
 }
 
-// reconcile runs one Reconcile of the named controller ("node" with id, or "claim") on the world.
-func (s *sut) reconcile(w *world, ctrl string, id int64, f *fault) outcome {
+// reconcile runs one Reconcile of the named controller ("node" with id, or "claim") on the world. staleNode /
+// staleClaim, when set, is an older version of the object: it is what the reconcile is handed (a lagging informer
+// cache), with a resourceVersion that differs from the stored object's, while every read and write of the reconcile
+// goes to the current world.
+func (s *sut) reconcile(w *world, ctrl string, id int64, f *fault, staleNode *wNode, staleClaim *wClaim) outcome {
 	ctx := kit.Context()
 	s.w, s.inst, s.f = w, w.Inst, f
 	s.fired, s.effs, s.instants, s.podLists, s.ncPatch, s.persist = false, nil, nil, 0, 0, 0
@@ -467,7 +495,12 @@ func (s *sut) reconcile(w *world, ctrl string, id int64, f *fault) outcome {
 		var obj corev1.Node
 		err := s.sw.Get(ctx, client.ObjectKey{Name: nodeName(id)}, &obj)
 		s.quiet = false
-		if err == nil {
+		if staleNode != nil {
+			old := mkNode(staleNode)
+			old.ResourceVersion = "1"
+			s.cur = "node"
+			res = classify(s.node.Reconcile(ctx, old))
+		} else if err == nil {
 			s.cur = "node"
 			res = classify(s.node.Reconcile(ctx, &obj))
 		} else if !apierrors.IsNotFound(err) {
@@ -477,7 +510,12 @@ func (s *sut) reconcile(w *world, ctrl string, id int64, f *fault) outcome {
 		var obj v1.NodeClaim
 		err := s.sw.Get(ctx, client.ObjectKey{Name: claimName}, &obj)
 		s.quiet = false
-		if err == nil {
+		if staleClaim != nil {
+			old := mkClaim(staleClaim, w.Now)
+			old.ResourceVersion = "1"
+			s.cur = "claim-fin"
+			res = classify(s.life.Reconcile(ctx, old))
+		} else if err == nil {
 			s.cur = "claim-launch"
 			if obj.DeletionTimestamp != nil {
 				s.cur = "claim-fin"
